@@ -4,7 +4,7 @@
    schedule.  The exclusivity of the lock is the model's assumption; the scheduled rig observes
    it on the real backends (and decides linearizability of the add-version handler, whose first
    request for a new client spans three transactions). *)
-From TSS Require Import Conc Sqlite AStore Http proofs.Atomic proofs.ConcLib proofs.UrgencyArith proofs.Agree proofs.Chain proofs.HttpReach proofs.ConcHttp proofs.ConcLin proofs.Inv ConcRig proofs.ConcRigProps.
+From TSS Require Import Conc Sqlite AStore Http proofs.Atomic proofs.ConcLib proofs.UrgencyArith proofs.Agree proofs.Chain proofs.HttpProps proofs.HttpReach proofs.ConcHttp proofs.ConcLin proofs.Inv ConcRig proofs.ConcRigProps.
 From Coq Require Import Arith.
 Local Open Scope nat_scope.
 
@@ -261,6 +261,46 @@ Example C03_up_to_known_finding_nonvacuous :
   map (fun p => (fst p, rs_status (snd p))) (fst (seq_run SqliteB hresp sq_empty (handlers w_cfg None w_hreqs) [1; 0]))
   = [(1, 404%N); (0, 200%N)].
 Proof. vm_compute. repeat split; reflexivity. Qed.
+
+(* (4d) "In particular two overlapping AddVersion requests are never both accepted on the same parent,
+   no accepted version is orphaned" — for either backend, any reachable store, ANY requests (new clients,
+   AddSnapshot inside the F3 window included) and ANY fine-grained schedule: when every request has been
+   answered and no transaction is open, the committed store represents an unpoisoned abstract store a in which
+   (i) every add-version request that was answered 200 is stored in its client's chain under the id it was
+       given (the generator's id), with the parent and the payload it submitted, and it is THE child of
+       its parent (so GetChildVersion(parent) returns it: C08/C01);
+   (ii) of two add-version requests for the same client and the same parent at most one was answered 200. *)
+Theorem C03_accepted_never_orphaned_never_forked : forall k cfg allow U0 a0 d0 reqs sch,
+  cfg_ok cfg -> Inv U0 a0 -> bk_rel k a0 d0 -> fresh_distinct U0 reqs ->
+  let s0 := init_sys (bk_backend k) hresp d0 (handlers cfg allow reqs) in
+  let f := frun (bk_backend k) hresp s0 sch in
+  owner f = None -> (forall i t, nth_error (th f) i = Some t -> exists r, t = TDone r) ->
+  exists a, bk_rel k a (db f) /\ a_ok a = true /\
+    (forall i E rq cl p cs r, nth_error reqs i = Some (E, rq) ->
+       rq = mkReq MPost (PAddVersion (IdOk p)) (COk cl) CTHistory cs ->
+       client_id_header allow (COk cl) = inl cl -> body_refused cs = false ->
+       nth_error (th f) i = Some (TDone r) -> rs_status r = 200%N ->
+       exists x, a_cl a cl = Some x /\ In (mkVersion (e_fresh E) p (body_of cs)) (a_vers x) /\
+                 by_parent p (a_vers x) = Some (mkVersion (e_fresh E) p (body_of cs))) /\
+    (forall i j Ei Ej rqi rqj cl p csi csj ri rj, i <> j ->
+       nth_error reqs i = Some (Ei, rqi) -> nth_error reqs j = Some (Ej, rqj) ->
+       rqi = mkReq MPost (PAddVersion (IdOk p)) (COk cl) CTHistory csi ->
+       rqj = mkReq MPost (PAddVersion (IdOk p)) (COk cl) CTHistory csj ->
+       client_id_header allow (COk cl) = inl cl -> body_refused csi = false -> body_refused csj = false ->
+       nth_error (th f) i = Some (TDone ri) -> nth_error (th f) j = Some (TDone rj) ->
+       ~ (rs_status ri = 200%N /\ rs_status rj = 200%N)).
+Proof. exact accepted_is_stored. Qed.
+
+(* non-vacuity: in the racing example of C03_overlap_nonvacuous all three requests finish, two are accepted *)
+Example C03_accepted_nonvacuous :
+  let s0 := init_sys SqliteB hresp sq_empty (handlers default_config None ex_reqs) in
+  let c := crun SqliteB hresp s0 [0; 1; 1; 1; 1; 0; 0; 0; 2; 2] in
+  (forall i t, nth_error (th c) i = Some t -> exists r, t = TDone r) /\ owner c = None /\
+  map (fun t => option_map rs_status (result_of SqliteB hresp t)) (th c) = [Some 409; Some 200; Some 200]%N.
+Proof.
+  vm_compute. split; [|split; reflexivity].
+  intros i t Hi. destruct i as [|[|[|i]]]; cbn in Hi; try (inversion Hi; eexists; reflexivity). destruct i; discriminate Hi.
+Qed.
 
 (* (5) the tie to the code: the function the scheduled rig's transaction schedules are replayed
    with on the extracted model (ConcRig.rig_run: run-one-transaction tokens, begin-while-held
